@@ -346,8 +346,28 @@ def spm(ctx, obs):
               '', '', where(prog, f, f.node))
     fm = [x for x in ast.walk(f.node) if isinstance(x, ast.Subscript) and isinstance(x.value, ast.Attribute) and x.value.attr == 'filter_matrices']
     idx = {norm(x.slice) for x in fm}
-    lv = loops[0].target.id if loops and isinstance(loops[0].target, ast.Name) else None
-    obs.check(idx == {lv}, 'ACC', q, 'run i is filtered with filter matrix i', f'filter index {idx}, run index {lv}', '', where(prog, f, f.node))
+    con = 'run i is filtered with filter matrix i'
+    # the loop that stores into the result; its target names are the per-run variables
+    store_loops = [lp for lp in loops if any(isinstance(t_, ast.Subscript) and isinstance(t_.value, ast.Name) and t_.value.id == out
+                                             for s_ in ast.walk(lp) if isinstance(s_, (ast.Assign, ast.AugAssign))
+                                             for t_ in (s_.targets if isinstance(s_, ast.Assign) else [s_.target]))]
+    run_vars = {n_.id for lp in store_loops for n_ in ast.walk(lp.target) if isinstance(n_, ast.Name)}
+    plain_counter = {lp.target.id for lp in store_loops if isinstance(lp.target, ast.Name)}
+    in_loop = all(any(x is y for lp in store_loops for y in ast.walk(lp)) for x in fm)
+    if not fm:
+        obs.unk('ACC', q, con, 'no read of self.filter_matrices[...]', where(prog, f, f.node))
+    elif any(isinstance(x.slice, ast.Constant) for x in fm):
+        obs.bad('ACC', q, con, f'filter index {idx}: one fixed filter matrix is used for every run', where(prog, f, fm[0]))
+    elif plain_counter and idx == plain_counter and in_loop:
+        obs.ok('ACC', q, con, '', where(prog, f, fm[0]))
+    elif plain_counter and all(isinstance(x.slice, ast.Name) for x in fm) and not (idx & run_vars):
+        obs.bad('ACC', q, con, f'filter index {idx}, run index {sorted(plain_counter)}', where(prog, f, fm[0]))
+    elif idx <= run_vars and in_loop:
+        # tuple target (enumerate / zip / a generator of (run, rows) pairs): the index is one of the per-run variables
+        obs.unk('ACC', q, con, f'filter index {sorted(idx)} is a per-run variable of the loop `for {norm(store_loops[0].target)} in ...`; '
+                f'its pairing with the rows is established by the iterable', where(prog, f, fm[0]))
+    else:
+        obs.unk('ACC', q, con, f'filter index {sorted(idx)}, per-run variables {sorted(run_vars)}', where(prog, f, fm[0]))
     # no lossy memoisation: a projector cached under a key that does not identify the filter matrix (its shape / length) hands
     # run j the filter of an earlier run i whenever both share the key
     for lp in loops:
@@ -380,7 +400,7 @@ def spm(ctx, obs):
             kroots, vroots = expand(key_e), expand(st.value)
             if not lossy and kroots and vroots and not (kroots & vroots):
                 lossy = True
-            by_index = isinstance(key, ast.Name) and key.id == lv
+            by_index = isinstance(key, ast.Name) and key.id in plain_counter
             con = 'a value cached across runs is keyed by the run'
             if by_index:
                 obs.ok('ACC', q, con, f'`{norm(st)[:70]}`', where(prog, f, st))
